@@ -141,7 +141,9 @@ def table() -> dict[str, Prop]:
     reg(Prop("C08", "provenance of recorded text: the content of code_block / fence / html_block / code_inline, the markup and info of "
              "block tokens and the ordered-list start are built from source slices (src[a:b], src[i], getLines) by an allowed-"
              "transform list only (PROV); the indent handed to getLines is a column quantity (UNIT); no Unicode-blank-sensitive "
-             "predicate on a verbatim payload, and the code-span padding is removed only under the three documented tests (UBLANK)",
+             "predicate on a verbatim payload, and the code-span padding is removed only under the three documented tests (UBLANK); "
+             "both ends of a raw source slice in a block rule derive from the line-table cells of one and the same line on every "
+             "path, so that text crossing a line boundary goes through getLines (ONELINE)",
              [PL.rule_prov, PL.rule_unit, PL.rule_ublank],
              not_decided="column-exact indentation removal inside getLines and *counts* (the thematic break's markup is one character "
                          "longer than the marker run: a numeric relation between a counter and a scan, not reported)"))
@@ -170,7 +172,8 @@ def table() -> dict[str, Prop]:
              "env['references'] is keyed by normalizeReference, the table is created only when absent, the first definition wins "
              "and later ones go to duplicate_refs (REFKEY); normalizeReference trims, collapses blanks and applies a full case "
              "fold (FOLD, RESUB); definition, link and image share the destination / title helpers and normalizeLink (SIB); the "
-             "recorded map of a definition obeys the map identity (MAP)",
+             "recorded map of a definition obeys the map identity (MAP); the definition's text is cut by getLines, never by a raw "
+             "slice across lines that would keep the prefixes of enclosing containers (ONELINE)",
              [RF.rule_env, RF.rule_refkey, RF.rule_fold, RF.rule_resub, RF.rule_sib, MP.rule_map],
              not_decided="that parsing with a seeded env equals parsing the prepended definitions (equality of two parses), that the "
                          "reference form and the inline form yield equal tokens, and line counting inside multi-line titles"))
@@ -238,22 +241,24 @@ TECHNIQUE = {
            "translations; rule-table order check",
     "C16": "alias-chain check of the env object over the resolved call graph; reaching-definition check that every reference-table "
            "key is a normalizeReference result; predicate dominance of the first-wins guard; transform-chain recognition of the "
-           "label normaliser; sibling agreement of the three destination / title consumers",
+           "label normaliser; sibling agreement of the three destination / title consumers; one-line check of raw source slices",
     "C10": "truth-table simulation of the chain-compilation loop; call-graph computation of token-kind producers against a "
            "reviewed table; edge-dominance of effects by trigger / option tests on per-function CFGs; sibling agreement of the "
            "facade's fan-out and of the option accessors",
     "C08": "provenance (taint-style) analysis over reaching definitions with an allowed-transform grammar; unit (column vs "
-           "character) typing of getLines arguments; predicate-dominance check of the padding strip",
+           "character) typing of getLines arguments; predicate-dominance check of the padding strip; reaching-definition / "
+           "value-numbering check that both ends of a source slice belong to one line",
     "C09": "set equality of character tables extracted from literals and regex ASTs; traversal-coverage analysis of the "
            "placeholder eliminator (coverage, totality, closure under children); accumulator-overwrite and escape-unaware-"
            "operation lints",
     "C17": "forward dataflow of normalisation facts (no-CRLF / no-CR / no-NUL) through the normalize rule; regex-language "
            "decision of the extracted constants; dimension (absolute vs relative column) check of all tab-stop arithmetic and "
            "bsCount stores (every alternative of conditional expressions); per-iteration definite assignment of the marker "
-           "flags; stale-hoist check of line-table cells",
+           "flags; stale-hoist check of line-table cells (on the normal form of the block-rule modules, sa/inline.py)",
     "C07": "value numbering with symbolic entry values (context fields and line-table cells restored at every return, "
            "co-inductive over the rule set); must-pass-through / dominance checks for the freshness of tight and parentType; "
-           "sibling lockstep of the save lists",
+           "sibling lockstep of the save lists; the block-rule modules are first brought to a normal form by behaviour-"
+           "preserving inlining of private helpers and dissolution of private records (sa/inline.py)",
     "C03": "value numbering with symbolic entry values over per-rule CFGs (map end == cursor identity) plus a must-pass-through "
            "path check for placeholder patches; zone (difference-bound) dataflow with trace partitioning on a flag for the "
            "cursor <= lineMax contract, assumed co-inductively after each dispatch and validated at every call site",
